@@ -5,10 +5,24 @@
 From Coq Require Import List NArith ZArith Bool.
 Import ListNotations.
 
-(* field bodies; Nickel: n | x | a + b | a * b | if a <= b then t else e *)
+(* error classes of the harness (harness/src/eval.rs classify_eval) that this fragment can reach *)
+Inductive err : Type := UnboundId | FieldMissing | MissingDef | NonMergeable | Blame | TypeErr.
+
+(* [IsRec]: the value is a record (nested records: a field whose definition is a record literal);
+   it is a type error in arithmetic.  [OutOfFuel]: the fuel of the evaluators ran out (the real
+   evaluator reports an infinite recursion through its black-holing); [Panic]: the Rust code would
+   panic (a revertible thunk without cached value is read, or [init_cached] finds a cached value
+   already there).  [Opaque]: outside the modelled fragment (the structural comparison of two
+   records by a contract). *)
+Inductive outcome : Type := Ok (z : Z) | IsRec | Err (e : err) | OutOfFuel | Panic | Opaque.
+
+(* field bodies; Nickel: n | x | a + b | a * b | if a <= b then t else e.  [Const o] does not occur
+   in source programs: it stands for a variable of an enclosing record whose outcome is already
+   fixed (used when a nested record literal is instantiated, see Nested.v). *)
 Inductive tm : Type :=
 | Num (z : Z)
 | Var (x : N)
+| Const (o : outcome)
 | Add (a b : tm)
 | Mul (a b : tm)
 | IfLe (a b t e : tm).
@@ -29,38 +43,30 @@ Definition pcmp (p1 p2 : prio) : comparison :=
   | PNum n, PNeut => Z.compare n 0
   end.
 
-(* error classes of the harness (harness/src/eval.rs classify_eval) that this fragment can reach *)
-Inductive err : Type := UnboundId | FieldMissing | MissingDef | NonMergeable | Blame.
-
-(* [OutOfFuel]: the fuel of the evaluators ran out (the real evaluator reports an infinite
-   recursion through its black-holing); [Panic]: the Rust code would panic (a revertible thunk
-   without cached value is read, or [init_cached] finds a cached value already there). *)
-Inductive outcome : Type := Ok (z : Z) | Err (e : err) | OutOfFuel | Panic.
-
 (* evaluation of a body given the meaning of its variables: strict, left to right, the first
    failure wins (Op2 evaluates its first argument, then the second) *)
+(* a number is expected *)
+Definition num_out (o : outcome) : outcome :=
+  match o with IsRec => Err TypeErr | o => o end.
+
+(* a binary arithmetic primitive: both operands are evaluated (first failure wins), then their types
+   are checked (operation.rs: process_binary_operation matches on the two evaluated operands) *)
+Definition arith2 (f : Z -> Z -> outcome) (o1 o2 : outcome) : outcome :=
+  match o1 with
+  | Ok x => match o2 with Ok y => f x y | IsRec => Err TypeErr | e => e end
+  | IsRec => match o2 with Ok _ | IsRec => Err TypeErr | e => e end
+  | e => e
+  end.
+
 Fixpoint eval_tm (look : N -> outcome) (t : tm) : outcome :=
   match t with
   | Num z => Ok z
   | Var x => look x
-  | Add a b =>
-      match eval_tm look a with
-      | Ok x => match eval_tm look b with Ok y => Ok (x + y)%Z | o => o end
-      | o => o
-      end
-  | Mul a b =>
-      match eval_tm look a with
-      | Ok x => match eval_tm look b with Ok y => Ok (x * y)%Z | o => o end
-      | o => o
-      end
+  | Const o => o
+  | Add a b => arith2 (fun x y => Ok (x + y)%Z) (eval_tm look a) (eval_tm look b)
+  | Mul a b => arith2 (fun x y => Ok (x * y)%Z) (eval_tm look a) (eval_tm look b)
   | IfLe a b t e =>
-      match eval_tm look a with
-      | Ok x => match eval_tm look b with
-                | Ok y => if (x <=? y)%Z then eval_tm look t else eval_tm look e
-                | o => o
-                end
-      | o => o
-      end
+      arith2 (fun x y => if (x <=? y)%Z then eval_tm look t else eval_tm look e) (eval_tm look a) (eval_tm look b)
   end.
 
 (* merge of two evaluated field values (merge.rs, the Number/Number case); operands in order *)
@@ -68,8 +74,13 @@ Definition merge_out (o1 o2 : outcome) : outcome :=
   match o1 with
   | Ok x => match o2 with
             | Ok y => if (x =? y)%Z then Ok x else Err NonMergeable
+            | IsRec => Err NonMergeable
             | o => o
             end
+  | IsRec => match o2 with
+             | Ok _ => Err NonMergeable
+             | o => o                       (* record & record: a record, merged when its fields are read *)
+             end
   | o => o
   end.
 
@@ -87,7 +98,7 @@ Definition scoped (scope : list N) (look : N -> outcome) (x : N) : outcome :=
 (* variables occurring in a body *)
 Fixpoint vars (t : tm) : list N :=
   match t with
-  | Num _ => []
+  | Num _ | Const _ => []
   | Var x => [x]
   | Add a b | Mul a b => vars a ++ vars b
   | IfLe a b t e => vars a ++ vars b ++ vars t ++ vars e
@@ -98,37 +109,96 @@ Fixpoint vars (t : tm) : list N :=
 Inductive ckind : Type := CGe | CNe.
 Definition ctr : Type := (ckind * tm)%type.
 
-Definition check_ctr (k : ckind) (v z : Z) : bool :=
-  match k with
-  | CGe => (z <=? v)%Z
-  | CNe => negb (v =? z)%Z
-  end.
-
 (* RuntimeContract::apply_all: the pending contracts of a field are applied one after the other to
    its value; the value is evaluated first, then the bound of the first contract, and so on; the
-   first failure wins *)
+   first failure wins.  [>=] needs numbers; [!=] compares any two values (a record differs from a
+   number; two records are compared structurally, which is outside this fragment). *)
 Fixpoint apply_ctrs (o : outcome) (cs : list (ckind * outcome)) : outcome :=
   match cs with
   | [] => o
-  | (k, oc) :: cs' =>
+  | (CGe, oc) :: cs' => arith2 (fun v z => if (z <=? v)%Z then apply_ctrs o cs' else Err Blame) o oc
+  | (CNe, oc) :: cs' =>
       match o with
       | Ok v => match oc with
-                | Ok z => if check_ctr k v z then apply_ctrs (Ok v) cs' else Err Blame
+                | Ok z => if negb (v =? z)%Z then apply_ctrs o cs' else Err Blame
+                | IsRec => apply_ctrs o cs'
                 | e => e
                 end
+      | IsRec => match oc with
+                 | Ok _ => apply_ctrs o cs'
+                 | IsRec => Opaque
+                 | e => e
+                 end
       | e => e
       end
   end.
 
-(* record literals: field name, priority annotation, optional definition; [fdyn]: the name is
-   written as an interpolated string ("%{n}" = ...), so it is not in scope of the bodies of the
-   literal (free_vars.rs: rec_fields are the static fields; eval/mod.rs: "the recursive environment
-   only contains the static fields, and not the dynamic fields") *)
-Record fdef : Type := { fprio : prio; fbody : option tm; fdyn : bool; fctrs : list ctr }.
+(* ---- record literals.  Two levels: the definition of a field of a top-level literal is an
+   expression or a (flat) record literal whose definitions are expressions. *)
+
+(* field name, priority annotation, optional definition, contracts; [f0dyn]: the name is written as
+   an interpolated string ("%{n}" = ...), so it is not in scope of the bodies of the literal
+   (free_vars.rs: rec_fields are the static fields; eval/mod.rs: "the recursive environment only
+   contains the static fields, and not the dynamic fields") *)
+Record fdef0 : Type := { f0prio : prio; f0body : option tm; f0dyn : bool; f0ctrs : list ctr }.
+Definition ilit : Type := list (N * fdef0).
+Definition ilit_scope (l : ilit) : list N :=
+  map fst (filter (fun kd => negb (f0dyn (snd kd))) l).
+
+(* the definition of a field of a top-level literal *)
+Inductive src : Type :=
+| STm (t : tm)
+| SSub (l : ilit).
+
+Definition minus (l r : list N) : list N := filter (fun x => negb (mem x r)) l.
+
+Definition fdef0_vars (d : fdef0) : list N :=
+  flat_map (fun kc => vars (snd kc)) (f0ctrs d) ++ match f0body d with Some t => vars t | None => [] end.
+
+(* the variables of a definition that refer to the enclosing record: for a record literal, those of
+   its bodies and contracts that are not (statically named) fields of the literal itself *)
+Definition svars (s : src) : list N :=
+  match s with
+  | STm t => vars t
+  | SSub l => minus (flat_map (fun kd => fdef0_vars (snd kd)) l) (ilit_scope l)
+  end.
+
+(* evaluating a definition to weak head normal form: a record literal is a record *)
+Definition eval_src (look : N -> outcome) (s : src) : outcome :=
+  match s with
+  | STm t => eval_tm look t
+  | SSub _ => IsRec
+  end.
+
+Record fdef : Type := { fprio : prio; fbody : option src; fdyn : bool; fctrs : list ctr }.
 Definition literal : Type := list (N * fdef).
 Definition lit_names (l : literal) : list N := map fst l.
 Definition lit_scope (l : literal) : list N :=
   map fst (filter (fun kd => negb (fdyn (snd kd))) l).
+
+(* a flat literal as a top-level literal *)
+Definition lift_fdef (d : fdef0) : fdef :=
+  {| fprio := f0prio d; fbody := option_map STm (f0body d); fdyn := f0dyn d; fctrs := f0ctrs d |}.
+Definition lift_lit (l : ilit) : literal := map (fun kd => (fst kd, lift_fdef (snd kd))) l.
+
+(* ---- instantiating a nested literal: the variables that refer to the enclosing record are
+   replaced by their (already determined) outcomes; the names of the literal itself shadow them *)
+Fixpoint subst_tm (f : N -> option outcome) (t : tm) : tm :=
+  match t with
+  | Num _ | Const _ => t
+  | Var x => match f x with Some o => Const o | None => Var x end
+  | Add a b => Add (subst_tm f a) (subst_tm f b)
+  | Mul a b => Mul (subst_tm f a) (subst_tm f b)
+  | IfLe a b t e => IfLe (subst_tm f a) (subst_tm f b) (subst_tm f t) (subst_tm f e)
+  end.
+
+Definition subst_fdef0 (f : N -> option outcome) (d : fdef0) : fdef0 :=
+  {| f0prio := f0prio d; f0body := option_map (subst_tm f) (f0body d); f0dyn := f0dyn d;
+     f0ctrs := map (fun kc => (fst kc, subst_tm f (snd kc))) (f0ctrs d) |}.
+
+Definition subst_ilit (f : N -> option outcome) (l : ilit) : ilit :=
+  let f' := fun x => if mem x (ilit_scope l) then None else f x in
+  map (fun kd => (fst kd, subst_fdef0 f' (snd kd))) l.
 
 (* override histories: step [i] may use the results of steps [< i] *)
 Inductive step : Type :=
